@@ -106,6 +106,11 @@ func (e *Env) eval(x Expr) *Value {
 	case *Cond:
 		c := e.evalBool(n.C)
 		a, b := e.eval(n.A), e.eval(n.B)
+		if isNilVal(a) && !isNilVal(b) {
+			a = e.g.zeroValue(b.T)
+		} else if isNilVal(b) && !isNilVal(a) {
+			b = e.g.zeroValue(a.T)
+		}
 		if len(a.L) != len(b.L) {
 			return e.fail("?: branches of different shape in %s", exprString(x))
 		}
@@ -464,6 +469,9 @@ func (e *Env) equal(a, b *Value) string {
 		if len(b.L) == 0 {
 			return "true"
 		}
+		if b.LV != nil && strings.HasPrefix(b.L[0], "?") {
+			return "false" // the address of a variable, field or element is never nil
+		}
 		return smtEq(b.L[0], "0")
 	}
 	if len(a.L) != len(b.L) {
@@ -596,18 +604,27 @@ func (e *Env) evalQuant(n *Quant) *Value {
 			return e.fail("quantifier variable %s: %v", v.Name, err)
 		}
 		sh := g.W.shapes.shape(t)
-		if len(sh) != 1 {
-			return e.fail("quantifier variable %s of composite type %s", v.Name, typeKey(t))
+		base := g.freshName("q." + v.Name)
+		val := &Value{T: t, L: make([]string, len(sh))}
+		for i, l := range sh {
+			name := base + sanitize(l.Path)
+			decls = append(decls, fmt.Sprintf("(%s %s)", name, l.Sort))
+			val.L[i] = name
+			switch l.Kind {
+			case "int":
+				if lo, hi, _, _, ok := intRange(l.T); ok && !(v.T.Kind == "name" && (v.T.Name == "int" || v.T.Name == "mathint")) {
+					guards = append(guards, fmt.Sprintf("(and (<= %s %s) (<= %s %s))", lo, name, name, hi))
+				}
+			case "ref", "obj", "val", "str":
+				guards = append(guards, fmt.Sprintf("(<= 0 %s)", name))
+			case "len":
+				guards = append(guards, fmt.Sprintf("(and (<= 0 %s) (<= 0 %s) (<= %s %s) (<= %s %s))", val.L[i-1], name, name, base+"@cap", base+"@cap", maxSliceLen))
+			case "tag":
+				guards = append(guards, fmt.Sprintf("(<= 0 %s)", name))
+			}
 		}
-		name := g.freshName("q." + v.Name)
-		decls = append(decls, fmt.Sprintf("(%s %s)", name, sh[0].Sort))
-		val := &Value{T: t, L: []string{name}}
 		if v.T.Kind == "name" && (v.T.Name == "int" || v.T.Name == "mathint") {
-			val = mathVal(name)
-		} else if lo, hi, _, _, ok := intRange(t); ok {
-			guards = append(guards, fmt.Sprintf("(and (<= %s %s) (<= %s %s))", lo, name, name, hi))
-		} else if sh[0].Kind == "ref" {
-			guards = append(guards, fmt.Sprintf("(<= 0 %s)", name))
+			val = mathVal(val.L[0])
 		}
 		sub.bound[v.Name] = val
 	}
@@ -693,6 +710,21 @@ func (e *Env) evalCall(n *Call) *Value {
 		}
 		d, ks := g.mapDomTerm(e.st, m)
 		return &Value{T: m.T, L: []string{d}, SetElem: ks}
+	case "off":
+		v := e.eval(n.Args[0])
+		if len(v.L) != 4 {
+			return e.fail("off() of non-slice")
+		}
+		return mathVal(v.L[1])
+	case "at":
+		// at(s, j): element at absolute position j of the backing array of s (j = off(s)+i for s[i])
+		v := e.eval(n.Args[0])
+		sl, ok := types.Unalias(v.T).Underlying().(*types.Slice)
+		if !ok || len(v.L) != 4 {
+			return e.fail("at() of non-slice")
+		}
+		lv := &LValue{Kind: lvElem, Obj: v.L[0], Idx: e.eval(n.Args[1]).term(), Root: sl.Elem(), T: sl.Elem()}
+		return g.load(e.st, lv)
 	case "abs":
 		v := e.eval(n.Args[0]).term()
 		return mathVal("(abs " + v + ")")
@@ -789,7 +821,11 @@ func (e *Env) applySpec(sf *SpecFunc, args []*Value) *Value {
 		if len(a.L) != info.argLeaves[i] {
 			return e.fail("spec function %s: argument %s has %d leaves, expected %d", sf.Name, p.Name, len(a.L), info.argLeaves[i])
 		}
-		in = append(in, a.L...)
+		for j, l := range a.L {
+			if info.argUsed[i][j] {
+				in = append(in, l)
+			}
+		}
 	}
 	g.usedSpec[sf.Name] = true
 	v := &Value{T: info.ret, L: make([]string, len(info.retNames))}
@@ -824,11 +860,14 @@ func (e *Env) coerceArg(sf *SpecFunc, p SParam, a *Value) *Value {
 
 type specInfo struct {
 	heap      []string
+	argUsed   [][]bool // per argument, per leaf: does any axiom mention it (unused leaves are not passed)
+	argNames  [][]string
 	argLeaves []int
 	argSorts  []string
 	ret       types.Type
 	retNames  []string
 	retSorts  []string
+	allSorts  [][]string
 	math      bool
 	declared  bool
 }
@@ -862,9 +901,21 @@ func (g *Gen) specInfo(sf *SpecFunc) *specInfo {
 		}
 		sh := g.W.shapes.shape(t)
 		info.argLeaves = append(info.argLeaves, len(sh))
+		var names []string
+		var used []bool
 		for _, l := range sh {
-			info.argSorts = append(info.argSorts, l.Sort)
+			names = append(names, "a."+sanitize(p.Name+l.Path))
+			used = append(used, len(sh) < 2 || len(sf.Axioms) == 0)
 		}
+		info.argNames = append(info.argNames, names)
+		info.argUsed = append(info.argUsed, used)
+		info.allSorts = append(info.allSorts, func() []string {
+			var ss []string
+			for _, l := range sh {
+				ss = append(ss, l.Sort)
+			}
+			return ss
+		}())
 	}
 	rt, math, err := g.specParamType(sf, sf.Ret)
 	if err != nil {
@@ -877,7 +928,8 @@ func (g *Gen) specInfo(sf *SpecFunc) *specInfo {
 		info.retSorts = append(info.retSorts, l.Sort)
 	}
 	// heap dependencies: fixpoint over the axioms translated with a symbolic heap
-	for iter := 0; iter < 5; iter++ {
+	var lastTexts []string
+	for iter := 0; iter < 8; iter++ {
 		sym := &symHeap{vars: map[string]string{}}
 		texts := g.translateAxioms(sf, info, sym, false)
 		var keys []string
@@ -887,10 +939,28 @@ func (g *Gen) specInfo(sf *SpecFunc) *specInfo {
 			}
 		}
 		keys = mergeSorted(info.heap, keys)
-		if len(keys) == len(info.heap) {
+		lastTexts = texts
+		grew := false
+		for i := range info.argNames {
+			for j, n := range info.argNames[i] {
+				if !info.argUsed[i][j] && occursIn(texts, n) {
+					info.argUsed[i][j] = true
+					grew = true
+				}
+			}
+		}
+		if len(keys) == len(info.heap) && !grew {
 			break
 		}
 		info.heap = keys
+	}
+	_ = lastTexts
+	for i := range info.allSorts {
+		for j, srt := range info.allSorts[i] {
+			if info.argUsed[i][j] {
+				info.argSorts = append(info.argSorts, srt)
+			}
+		}
 	}
 	var sorts []string
 	for _, k := range info.heap {
